@@ -87,6 +87,7 @@ pub fn gen(args: &Args) {
     let mut w = TraceWriter::create(&args.str("out", "c19.ndjson"));
     std::fs::create_dir_all(&dir).unwrap();
     let mut n_rt = 0;
+    let (mut anchor_o, mut anchor_list) = (0usize, 0usize);
     for (idx, s) in scen.iter().enumerate() {
         let g = |i: usize| s[i].as_str().unwrap_or("").to_string();
         let (lat_c, lon_c, gmt_c, elev_c, dates_c, input_c) = (g(0), g(1), g(2), g(3), g(4), g(5));
@@ -101,16 +102,27 @@ pub fn gen(args: &Args) {
         let elev = if elev_c == "absent" { Num { text: String::new(), v: 0 } } else { num(&mut r, &elev_c, -420., 8848., 1.) };
         let meth = r.range(0, 8) as usize;
         let mut start = date_of_dn(r.range(dn_of(ymd(1600, 1, 1)), dn_of(ymd(2398, 1, 1))));
-        if r.chance(1, 4) {
-            // month / year / leap-day structure incl. the 400-year rule
-            start = *pick(&mut r, &[ymd(2000, 2, 27), ymd(1600, 2, 26), ymd(2024, 2, 27), ymd(1900, 2, 26), ymd(2100, 2, 27),
-                ymd(1999, 12, 30), ymd(2000, 12, 29), ymd(2023, 1, 30), ymd(2000, 2, 29), ymd(2396, 2, 28)]);
+        // month / year / leap-day structure incl. the 400-year rule: every anchor is used by the first accepted
+        // scenarios of each output mode (round-robin), and at random afterwards
+        let anchors = [ymd(2000, 2, 27), ymd(1600, 2, 26), ymd(2024, 2, 27), ymd(1900, 2, 26), ymd(2100, 2, 27),
+            ymd(1999, 12, 30), ymd(2000, 12, 29), ymd(2023, 1, 30), ymd(2000, 2, 29), ymd(2396, 2, 28)];
+        let mut anchored = false;
+        if pred == "done" && input_c == "none" && dates_c == "ok" {
+            let slot = if has_o { &mut anchor_o } else { &mut anchor_list };
+            if *slot < anchors.len() {
+                start = anchors[*slot];
+                *slot += 1;
+                anchored = true;
+            }
         }
-        let span = match r.range(0, 9) {
+        if !anchored && r.chance(1, 5) {
+            start = *pick(&mut r, &anchors);
+        }
+        let span = if anchored { r.range(3, 12) } else { match r.range(0, 9) {
             0 => 1,
             1 => r.range(300, 400),
             _ => r.range(1, 45),
-        };
+        } };
         let (sd, ed) = match dates_c.as_str() {
             "ok" => (start.to_string(), (start + chrono::Duration::days(span - 1)).to_string()),
             "reversed" => (start.to_string(), (start - chrono::Duration::days(span)).to_string()),
@@ -213,6 +225,15 @@ pub fn gen(args: &Args) {
         let mut eq_lib = false;
         let mut ndays = 0;
         if let Some((params, loc, dr)) = &expect {
+            // the library's answer must not depend on what this process computed before: first the same dates at the
+            // neighbouring half-hour zone offsets, then the configuration itself
+            let g = f64::from(loc.gmt);
+            for gg in [(g * 2.).floor() / 2., (g * 2.).ceil() / 2., (g * 2.).floor() / 2. - 0.5] {
+                if let Ok(g2) = Gmt::try_from(gg) {
+                    let l2 = Location { coords: loc.coords, gmt: g2 };
+                    let _ = prayer_times_dt_rng(params, l2, dr);
+                }
+            }
             let table = prayer_times_dt_rng(params, *loc, dr);
             ndays = table.len();
             if has_o {
